@@ -187,6 +187,51 @@ func splitTop(s string, sep byte) []string {
 	return append(out, s[start:])
 }
 
+// projectLit: lit{F: x, G: y} selected by F is x. Only applied to by-value parameters bound to a literal built at the
+// call site (a parameter-grouping struct must not hide where its members come from); never to locals whose address
+// may have been handed out.
+func projectLit(a, name string) (string, bool) {
+	if !strings.HasPrefix(a, "lit{") || !strings.HasSuffix(a, "}") {
+		return "", false
+	}
+	for _, part := range splitTop(a[4:len(a)-1], ',') {
+		part = strings.TrimSpace(part)
+		if strings.HasPrefix(part, name+": ") {
+			return strings.TrimPrefix(part, name+": "), true
+		}
+	}
+	return "", false
+}
+
+func (pv *Prov) litParam(v ssa.Value, env *Env) (string, bool) {
+	if env == nil {
+		return "", false
+	}
+	prm, ok := pv.resolve(v).(*ssa.Parameter)
+	if !ok {
+		// a by-value struct parameter spilled to a local so that its address can be taken
+		al, isAlloc := pv.resolve(v).(*ssa.Alloc)
+		if !isAlloc {
+			return "", false
+		}
+		n := 0
+		for _, r := range *al.Referrers() {
+			if st, isSt := r.(*ssa.Store); isSt && st.Addr == ssa.Value(al) {
+				n++
+				prm, _ = st.Val.(*ssa.Parameter)
+			}
+		}
+		if n != 1 || prm == nil {
+			return "", false
+		}
+	}
+	if _, isPtr := prm.Type().Underlying().(*types.Pointer); isPtr {
+		return "", false
+	}
+	a, ok := env.params[prm]
+	return a, ok && strings.HasPrefix(a, "lit{")
+}
+
 // withSuffix distributes a path suffix over a join.
 func withSuffix(a, suffix string) string {
 	if strings.HasPrefix(a, "phi(") && strings.HasSuffix(a, ")") {
@@ -522,6 +567,11 @@ func (pv *Prov) Atom(v ssa.Value, env *Env) string {
 		if st != nil && x.Field < st.NumFields() {
 			name = st.Field(x.Field).Name()
 		}
+		if la, ok := pv.litParam(x.X, env); ok {
+			if v, ok := projectLit(la, name); ok {
+				return v
+			}
+		}
 		base := pv.resolve(x.X)
 		if al, ok := base.(*ssa.Alloc); ok {
 			whole, fv := pv.storesTo(al, x.Field)
@@ -546,6 +596,11 @@ func (pv *Prov) Atom(v ssa.Value, env *Env) string {
 		name := fmt.Sprintf("f%d", x.Field)
 		if st != nil && x.Field < st.NumFields() {
 			name = st.Field(x.Field).Name()
+		}
+		if la, ok := pv.litParam(x.X, env); ok {
+			if v, ok := projectLit(la, name); ok {
+				return v
+			}
 		}
 		return withSuffix(pv.Atom(x.X, env), "."+name)
 	case *ssa.IndexAddr:
